@@ -3,4 +3,5 @@ CONSTANTS
   Sizes = {64, 200, 1025, 2049, 4000, 8192, 8193, 8245, 8260, 16384, 16385, 24577, 30000, 65536}
 INVARIANT Inv
 INVARIANT NoLoop
+INVARIANT ResizeInodeOK
 CHECK_DEADLOCK FALSE
